@@ -44,6 +44,15 @@ def page_scenarios(tier, seed):
                 st["observe"] = True
                 st["probes"] = sorted({1, max(1, total // 2), total, rng.randrange(1, total + 1)})
                 since_obs = 0
+        # crash images of the transaction that makes the node table move: fill up to a page boundary quietly, put another
+        # structure behind the table, then create the nodes that open the next page with every I/O step imaged
+        fill = (512 - total % 512) - 2
+        if fill > 0:
+            steps.append({"op": "nodes", "n": fill, "label": "A"})
+            total += fill
+        steps.append({"op": "compact"})
+        steps.append({"op": "nodes", "n": 5, "label": "B", "crash": True, "observe": True, "probes": [total + 4]})
+        total += 5
         steps.append({"op": "compact"})
         steps.append({"op": "reopen", "observe": True, "probes": [1, total]})
         steps.append({"op": "nodes", "n": 3, "label": "A", "observe": True, "probes": [total + 1]})
@@ -124,7 +133,9 @@ def c18(tier, seed, replay):
            "distinct_nontrivial": saved["relocations"],
            "rule": "growth histories (transactions of up to 700 nodes, relationships, property values up to 20 kB, vectors, index "
                    "creation, compaction, checkpoint, reopen) with the page hook on; evaluations = pager events judged against the owner "
-                   "map; non-trivial = node-table pages released by a relocation (the table had to move because the next page was taken)",
+                   "map; non-trivial = node-table pages released by a relocation (the table had to move because the next page was taken); "
+                   "the transaction that triggers the last relocation of each history is also run with a process-death and a power-loss "
+                   "image after every I/O step, each opened and read back (crashobs)",
            "harness_stats": st, "binding_selftest": saved["selftest"], "known_findings_seen": nk,
            "samples": [s["steps"][:6] for s in scenarios[:2]]}
     vlib.write_evidence("C18", tier, seed, "model_checking", cov, time.time() - t0, nv,
